@@ -18,6 +18,7 @@ import shutil
 import family
 import gen
 import lpev
+import ops
 import opsprop
 from props import c01, c02, c03, c04, c07, c08, c09, c11, c12, c13, c15, c16
 from tlcrun import run_tlc, stats_of, require_clean
@@ -156,6 +157,37 @@ def adversarial_c04(sd, n):
     return cases
 
 
+def decimal_cases(sd, n):
+    """equalities with non-dyadic decimal coefficients (0.1, 0.3, 0.7 ...) on a connection variable: float arithmetic leaves residues
+    like 1e-17 where exact arithmetic cancels -- legal inputs, only documented exceptions may come out, from the operation or from printing"""
+    out = []
+    decs = [0.1, 0.3, 0.7, 0.2, 1.1, 0.9]
+    for i in range(n):
+        rng = family.rng_for(sd, "C14dec", i)
+        a, b = rng.choice([3, 7, 0.3, 1.3, 9]), rng.choice(decs)
+        d1 = {"inv": ["i"], "outv": ["o"], "a": [({"i": 1}, 10)], "g": [({"o": a, "i": -b}, 0), ({"o": -a, "i": b}, 0)]}
+        if rng.random() < 0.5:
+            d1["g"].append(({"o": 1}, rng.choice([40, 7.7])))
+        d2 = {"inv": ["o"], "outv": ["p"], "a": [({"o": 1}, rng.choice([50, 12.3]))] if rng.random() < 0.5 else [], "g": [({"p": 1, "o": rng.choice([1, 0.7, -0.3])}, 5)]}
+        out.append({"id": 300000 + i, "raw": [d1, d2]})
+    return out
+
+
+def decimal_run(case):
+    d1, d2 = case["raw"]
+    evs = []
+    for x, y in ((d1, d2), (d2, d1)):
+        for simp in (True, False):
+            c1, c2 = gen.mk_contract(x), gen.mk_contract(y)
+            ev = ops.ev_compose(c1, c2, [], simp, None, ["itf"])
+            evs.append(ev)
+    # printing is a public operation too
+    c1 = gen.mk_contract(d1)
+    ev = ops.ev_compose(c1, gen.mk_contract(d2), ["o"], True, [2, 3, 4, 5], ["itf"])
+    evs.append(ev)
+    return {"id": case["id"], "ev": evs}
+
+
 def adversarial_lp(case):
     """constraints without any variable ('1 <= 2', or rows whose coefficients cancelled): legal inputs;
     only the exception class is judged here"""
@@ -214,6 +246,7 @@ def main(tier, replay=None):
     for mod, n in ((c03, 200), (c07, 120), (c11, 150), (c12, 60)):
         cases = mod.gen_cases("quick")[: n if q else 4 * n]
         absorb(mod.PROP, lpev.run(PROP, tier, cases, mod.run_case, "", owner=lambda ev: "none", rep=rep))
+    absorb("decimals", opsprop.run(PROP, tier, decimal_cases(sd, 40 if q else 400), decimal_run, "", rep=rep))
     absorb("var-free", lpev.run(PROP, tier, adversarial_lp_cases(sd, 40 if q else 400), adversarial_lp, "", owner=lambda ev: "none", rep=rep))
     # (a') the parser on the spellings and malformations of C09, and the sessions of C13: exception class only
     pcases = c09.gen_cases("quick")[: 150 if q else 840]
